@@ -10,7 +10,7 @@ ASSUME = ["hashbrown's raw-entry API on a shard is modelled as one entry cell pe
           "the hashes of different keys are arbitrary and may collide (the registry is generic over Hashable keys); C03 checks Eq/hash coherence for Key",
           "std RwLock modelled as a lock word with await semantics (readers count / writer bit), acquire on lock and release on unlock; lock poisoning outside the claim",
           "keys are abstract identities: equal keys (however they were built) are one identity; the hash of a key is an arbitrary value fixed per identity; 2 shards",
-          "visit_*, retain_*, clear and get_*_handles (whole-map iteration) are not covered by this check",
+          "visit_*, retain_*, clear and get_*_handles: sequential histories (one thread, at quiescence) from an arbitrary well-formed registry; a whole-map operation racing other threads is not covered (the documentation of visit_* promises nothing for it)",
           "sequential consistency + release/acquire race relation on the entry cells"]
 KINDS = ["counter", "gauge", "histogram"]
 
@@ -18,8 +18,9 @@ KINDS = ["counter", "gauge", "histogram"]
 MAP_HASHER_IS_KEY_HASHER = [True]
 
 
-def build(ops, name):
-    """ops: list of threads; each thread is a list of (opname, kind, keyid). opname in get_or_create | delete | get"""
+def build(ops, name, loop_bound=2, keep=None):
+    """ops: list of threads; each thread is a list of (opname, kind, keyid). opname in get_or_create | delete | get, and the whole-map
+    operations visit | handles | retain (kind given, key None) and clear (kind and key None); `keep`: the predicate given to retain"""
     P = _e3.program(["metrics-util"])
     m = dict(models_reg.REG_MODELS)
     hashes = {}
@@ -36,11 +37,26 @@ def build(ops, name):
     m[r"as (common::)?Hashable>::hashable$"] = m_hashable
     m[r"as (registry::storage::)?Storage>::(counter|gauge|histogram)$"] = m_storage
     m[r"^Option::map$"] = lambda eng, ctx, f, path, args, dty: args[0]      # get_*: clone of the value — identity of the storage is what matters
+    from mirsmt import models_str as MS_, models_std as STD_
+
+    def m_into_iter(eng, ctx, f, path, args, dty):
+        v = args[0]
+        w = eng.load_ptr(ctx, v) if isinstance(v, Ptr) and v.root[0] in ("local", "static") else v
+        if isinstance(w, Native) and w.kind == "shards":
+            return models_reg.m_shards_iter(eng, ctx, f, path, [w], dty)
+        if isinstance(w, Native) and w.kind == "shardmap":
+            return models_reg.m_shard_iter(eng, ctx, f, path, [w], dty)
+        if isinstance(w, Native) and w.kind == "liter":
+            return w
+        return STD_.m_vec_into_iter(eng, ctx, f, path, args, dty)
+    m[r"^core::slice::(.*::)?iter$"] = models_reg.m_shards_iter
+    m[r"as IntoIterator>::into_iter$"] = m_into_iter
+    m[r"as Iterator>::next$"] = MS_.m_next
     m.update(models.BASE)
-    eng = sym.Engine(P, models=m, loop_bound=2)
+    eng = sym.Engine(P, models=m, loop_bound=loop_bound)
     c0 = sym.Ctx(eng, 0)
     eng.thread_names[0] = "setup"
-    keyids = sorted({k for th in ops for (_, _, k) in th})
+    keyids = sorted({k for th in ops for (_, _, k) in th if k is not None})
     # placement hashes: under which hash an entry sits in its table. `Hashable::hashable()` gives hash_k; the map's own hasher gives the
     # same value iff the shard maps are declared with the key's hasher (BuildHasherDefault<KeyHasher>), otherwise an unrelated one
     other = z3.Function("map_own_hash", z3.IntSort(), z3.BitVecSort(64))
@@ -70,6 +86,23 @@ def build(ops, name):
             return z3.IntVal(o) if isinstance(o, int) else o
         return Native("callback", cb)
     bodies = {(o, k): P.find("Registry", f"{o}_{k}") for o in ("get_or_create", "delete", "get") for k in KINDS}
+    for k in KINDS:
+        bodies[("visit", k)] = P.find("Registry", f"visit_{k}s")
+        bodies[("retain", k)] = P.find("Registry", f"retain_{k}s")
+        bodies[("handles", k)] = P.find("Registry", f"get_{k}_handles")
+    bodies[("clear", None)] = P.find("Registry", "clear")
+
+    def visit_cb(tid, idx, kind):
+        def cb(eng_, ctx, f, args):
+            kk, vv = args[0], args[1]
+            while isinstance(kk, Ptr):
+                kk = eng_.load_ptr(ctx, kk)
+            while isinstance(vv, Ptr) and vv.root[0] in ("local", "static"):
+                vv = eng_.load_ptr(ctx, vv)
+            o = vv.root[1]
+            ctx.observe("visited", tid=tid, idx=idx, key=kk.data, obj=(z3.IntVal(o) if isinstance(o, int) else o))
+            return keep(kk.data) if kind == "retain" else UNIT
+        return Native("callback", cb)
     tids = []
     for t, th in enumerate(ops, start=1):
         def script(t=t, th=th):
@@ -80,10 +113,14 @@ def build(ops, name):
                 a = [Ptr(("static", "registry")), Ptr(("static", f"key{i}"))]
                 if o == "get_or_create":
                     a.append(op_cb(t, i))
+                if o in ("visit", "retain"):
+                    a = [Ptr(("static", "registry")), visit_cb(t, i, o)]
+                if o in ("handles", "clear"):
+                    a = [Ptr(("static", "registry"))]
                 r = yield ("call", bodies[(o, kind)], a)
                 rets.append(r)
             return rets
-        eng.run_script(t, f"t{t}:" + ",".join(f"{o}_{kd}(k{k})" for o, kd, k in th), script)
+        eng.run_script(t, f"t{t}:" + ",".join(f"{o}_{kd}(k{k})" if k is not None else f"{o}_{kd}" for o, kd, k in th), script)
         tids.append(t)
     sc = conc.Scenario(eng, name)
     for t in tids:
@@ -189,6 +226,81 @@ def scenario(e3, ops, name, fresh=True):
                 replayer=_e3.native_replayer("C06", "c06", roles, {}))
 
 
+def listing(e3, ops, name):
+    """one thread, an arbitrary well-formed initial registry, whole-map operations mixed with keyed ones: a listing reports exactly the
+    live keys of its kind, each once, with their storage; retain keeps exactly the live keys the predicate accepts; clear empties every kind"""
+    keep = z3.Function("retain_keeps_key", z3.IntSort(), z3.BoolSort())
+    P, eng, sc, shards, pre, hashes, tids = build([ops], name, loop_bound=6, keep=lambda k: keep(z3.IntVal(k)))
+    assume = []
+    for (kind, s, k), v in pre.items():
+        h = hashes.get(k, z3.BitVec(f"hash_k{k}", 64))
+        assume.append(z3.Or(v == 0, z3.And(v >= 1000, (h & 1) == s)))
+    vals = list(pre.items())
+    for i, (ka, va) in enumerate(vals):
+        for kb, vb in vals[i + 1:]:
+            assume.append(z3.Or(va == 0, vb == 0, va != vb))
+    keys = sorted({k for (_, _, k) in ops if k is not None})
+    # live[(kind, k)]: condition "present" and the storage, tracked through the thread's own operations
+    live = {(kind, k): (z3.Or(*[pre[(kind, s, k)] != 0 for s in range(2)]), z3.If(pre[(kind, 0, k)] != 0, pre[(kind, 0, k)], pre[(kind, 1, k)])) for kind in KINDS for k in keys}
+    visited = obs_of(eng, "visited")
+    opsobs = obs_of(eng, "op")
+    props = []
+    wrong_listing, wrong_after = [], []
+    for i, (o, kind, k) in enumerate(ops):
+        if o == "get_or_create":
+            seen = [(e, pay) for e, pay in opsobs if pay["idx"] == i]
+            was, obj = live[(kind, k)]
+            newobj = z3.Int(f"storage_seen_by_op{i}")
+            assume += [z3.Implies(e.guard, newobj == (pay["obj"] if not isinstance(pay["obj"], int) else z3.IntVal(pay["obj"]))) for e, pay in seen]
+            live[(kind, k)] = (z3.BoolVal(True), z3.If(was, obj, newobj))
+        elif o == "delete":
+            live[(kind, k)] = (z3.BoolVal(False), z3.IntVal(0))
+        elif o in ("visit", "retain", "handles"):
+            for kk in keys:
+                was, obj = live[(kind, kk)]
+                if o == "handles":
+                    # the returned map: a keyed container of the fallback library
+                    def has(l, kk=kk):
+                        m_ = l.ret[i]
+                        return [(key, l.ctx.statics[cell]) for key, cell in m_.data if isinstance(key, Native) and key.data == kk]
+                    n = sc.leaf_ite(1, lambda l: z3.IntVal(len(has(l))), z3.IntVal(-1))
+                    right = sc.leaf_ite(1, lambda l, obj=obj: z3.And(*[(z3.IntVal(v_.root[1]) if isinstance(v_.root[1], int) else v_.root[1]) == obj for key, v_ in has(l)]) if has(l) else z3.BoolVal(True), z3.BoolVal(True))
+                    wrong_listing.append(z3.Or(n != z3.If(was, 1, 0), z3.And(was, z3.Not(right))))
+                else:
+                    mine = [(e, pay) for e, pay in visited if pay["idx"] == i and pay["key"] == kk]
+                    n = z3.Sum(*[z3.If(e.guard, 1, 0) for e, pay in mine], z3.IntVal(0))
+                    right = z3.And(*[z3.Implies(e.guard, pay["obj"] == obj) for e, pay in mine]) if mine else z3.BoolVal(True)
+                    wrong_listing.append(z3.Or(n != z3.If(was, 1, 0), z3.And(was, z3.Not(right))))
+                if o == "retain":
+                    live[(kind, kk)] = (z3.And(was, keep(z3.IntVal(kk))), obj)
+        elif o == "clear":
+            for key_ in list(live):
+                live[key_] = (z3.BoolVal(False), z3.IntVal(0))
+        elif o == "get":
+            was, obj = live[(kind, k)]
+            rr = sc.leaf_ite(1, lambda l, i=i: eng.discr_is(l.ret[i].discr, 1), z3.BoolVal(False))
+            wrong_after.append(rr != was)
+    props.append(("listing_reports_exactly_the_live_keys", "a visit / handle listing at quiescence misses a live key, reports one twice, reports a dead one, or pairs a key with another storage", z3.Or(*wrong_listing) if wrong_listing else z3.BoolVal(False), None))
+    props.append(("get_after_retain_clear_delete_reports_existence", "after retain / clear / delete / get-or-create a get does not report exactly the keys that are live (retain keeps the live keys its predicate accepts, clear none)", z3.Or(*wrong_after) if wrong_after else z3.BoolVal(False), None))
+    bad_locks = obs_of(eng, "insert_without_write_lock") + obs_of(eng, "remove_without_write_lock")
+    if bad_locks:
+        props.append(("mutations_only_under_the_write_lock", "a shard is modified while only the read lock is held", z3.Or(*[e.guard for e, _ in bad_locks]), None))
+    props.append(("no_panic", "an operation can panic", sc.reach("panic"), None))
+    props = [p_ for p_ in props if not z3.is_false(z3.simplify(p_[2]))]
+    props = [(n, d, v, (x or []) + assume) for n, d, v, x in props]
+    roles = {1: " ".join(f"{o}:{kd}:{k}" for o, kd, k in ops)}
+    e3.standard(sc, eng, name, f"one thread {roles[1]}; 2 shards, arbitrary hashes, arbitrary well-formed initial registry over keys {keys}; the retain predicate is an uninterpreted function of the key; {sc.stats}", props, timeout=300,
+                replayer=_e3.native_replayer("C06", "c06", roles, {f"keep{k}": z3.If(keep(z3.IntVal(k)), z3.IntVal(1), z3.IntVal(0)) for k in keys} | {f"pre_{kind}_{k}": z3.If(z3.Or(*[pre[(kind, s, k)] != 0 for s in range(2)]), z3.IntVal(1), z3.IntVal(0)) for kind in KINDS for k in keys}))
+
+
+LISTINGS = [
+    ([("get_or_create", "counter", 1), ("visit", "counter", None), ("get", "counter", 2)], "c06_list_goc_visit"),
+    ([("get_or_create", "gauge", 2), ("handles", "gauge", None), ("delete", "gauge", 1), ("handles", "gauge", None)], "c06_list_handles_delete_handles"),
+    ([("retain", "histogram", None), ("get", "histogram", 1), ("get", "histogram", 2), ("visit", "histogram", None)], "c06_list_retain_get_visit"),
+    ([("get_or_create", "counter", 1), ("clear", None, None), ("get", "counter", 1), ("get", "gauge", 2), ("visit", "counter", None)], "c06_list_clear"),
+    ([("get_or_create", "counter", 1), ("retain", "counter", None), ("get", "counter", 1), ("get", "counter", 2), ("handles", "counter", None), ("visit", "gauge", None)], "c06_list_retain_counters"),
+]
+
 SCEN = [
     ([[("get_or_create", "counter", 1), ("get_or_create", "counter", 2), ("get_or_create", "counter", 1), ("get", "counter", 1)]], "c06_seq_goc_k1_k2_k1", True),
     ([[("get_or_create", "counter", 1)], [("get_or_create", "counter", 1)]], "c06_goc_goc_same_key", True),
@@ -229,10 +341,19 @@ def run(tier, seed, t0):
     e3 = _e3.E3("C06")
     trusted_base_check(e3)
     for ops, nm, fresh in SCEN + (SCEN_T if tier == "thorough" else []):
+        if os.environ.get("VERIF_C06_ONLY"):
+            continue
         try:
             scenario(e3, ops, nm, fresh)
         except _e3.ENC_ERRORS as ex:
             e3.error(nm, "MIR->SMT encoding of metrics_util::registry", ex)
+    for ops, nm in LISTINGS:
+        if os.environ.get("VERIF_C06_ONLY") and os.environ["VERIF_C06_ONLY"] not in nm:
+            continue
+        try:
+            listing(e3, ops, nm)
+        except _e3.ENC_ERRORS as ex:
+            e3.error(nm, "MIR->SMT encoding of the registry's whole-map operations", ex)
     # the registry finds a key by Key::get_hash() and then by Eq: "keys are compared by key equality regardless of how they were built"
     # needs equal keys to hash alike. Decided on the compiled code (Kani); the full Eq/Ord/Hash agreement is C03's subject.
     import kani, c03
